@@ -450,3 +450,74 @@ def check_structural_identity(ctx, rule, fx, prefix="syntax_tree::"):
                 "equality / hashing / ordering of %s are derived (field by field)%s" % (st.split("::")[-1], ": hand-written %s" % hand if hand else ""), nontrivial=bool(hand) or not derived_eq)
     ctx.floor(rule, "identity_types", n, 40)
     return n
+
+
+def cli_fields(fx, rel="src/command_line/arguments.rs"):
+    """[(field name, type text, {attribute key: value text or True})] of the clap-derived argument structs: the `#[arg(..)]` attribute of
+    each field, read at the token level (balanced parentheses, top-level commas)"""
+    src = fx.read_source(rel)
+    if src is None:
+        raise AnalysisGap("cannot read %s" % rel)
+    out = []
+    i = 0
+    while True:
+        i = src.find("#[arg(", i)
+        if i < 0:
+            break
+        j = i + len("#[arg(")
+        depth, k = 1, j
+        while k < len(src) and depth:
+            depth += src[k] == "("
+            depth -= src[k] == ")"
+            k += 1
+        inner = src[j:k - 1]
+        # top-level split
+        parts, cur, d, in_str = [], "", 0, False
+        for ch in inner:
+            if ch == '"':
+                in_str = not in_str
+            if not in_str:
+                d += ch in "([{"
+                d -= ch in ")]}"
+            if ch == "," and d == 0 and not in_str:
+                parts.append(cur)
+                cur = ""
+            else:
+                cur += ch
+        if cur.strip():
+            parts.append(cur)
+        attrs = {}
+        for part in parts:
+            key, _, val = part.strip().partition("=")
+            key = key.strip()
+            # `default_value_if("a", "b", "c")` is a call-style attribute
+            key = key.split("(")[0].strip()
+            attrs[key] = val.strip() if val.strip() else True
+        rest = src[k:]
+        rest = re.sub(r"^\s*\]", "", rest)
+        rest = re.sub(r"^(\s*(#\[[^\]]*\]|///[^\n]*|//[^\n]*))*", "", rest)
+        m = re.match(r"\s*(?:pub\s+)?([A-Za-z_][A-Za-z0-9_]*)\s*:\s*([^,\n]+)", rest)
+        if m:
+            out.append((m.group(1), m.group(2).strip(), attrs))
+        i = k
+    return out
+
+
+def check_cli_flags(ctx, rule, fx, names):
+    """A boolean command-line flag that gates a check or selects what is claimed is true exactly when the user wrote it: its `#[arg]`
+    attribute is `long` (and `short` / `action` = set-true) only - no default that depends on another argument, no inverted action, no
+    requires / conflicts that would make it unusable with the options it is documented with."""
+    fields = {n: (t, a) for n, t, a in cli_fields(fx)}
+    site = "src/command_line/arguments.rs"
+    ALLOWED = {"long", "short", "action", "help", "long_help", "verbatim_doc_comment", "visible_alias", "alias", "display_order", "help_heading"}
+    for name in names:
+        if name not in fields:
+            ctx.add(rule, "flag:%s" % name, None, site, "flag `%s` not found among the #[arg] fields" % name)
+            continue
+        ty, attrs = fields[name]
+        extra = sorted(k for k in attrs if k not in ALLOWED)
+        act = attrs.get("action", True)
+        act_ok = act is True or "SetTrue" in str(act)
+        long_ok = attrs.get("long", None) is True or (isinstance(attrs.get("long"), str) and attrs["long"].strip('"') == name.replace("_", "-"))
+        ctx.add(rule, "flag:%s" % name, ty == "bool" and not extra and act_ok and long_ok, site,
+                "--%s is a plain presence flag (attributes %s%s)" % (name.replace("_", "-"), sorted(attrs), "; not allowed here: %s" % extra if extra else ""))
